@@ -1054,6 +1054,23 @@ func (r *rig) finalFiles() map[string]string {
 	return out
 }
 
+// treeDump lists the outgoing, staging and final directories (for violation messages).
+func (r *rig) treeDump() string {
+	var b strings.Builder
+	for _, d := range []struct{ what, dir string }{{"outgoing", r.outDir}, {"staging", r.stageDir()}, {"final", r.finalDir()}} {
+		fmt.Fprintf(&b, "\n  %s:", d.what)
+		for _, e := range vh.List(d.dir) {
+			if !e.Dir {
+				fmt.Fprintf(&b, " %s(%d,%s)", e.Path, e.Size, e.MD5[:6])
+			}
+		}
+	}
+	for _, l := range r.recvLogRecords() {
+		fmt.Fprintf(&b, "\n  receive log: %s", l)
+	}
+	return b.String()
+}
+
 func (r *rig) sourceFiles() map[string]string {
 	out := map[string]string{}
 	for _, e := range vh.List(r.outDir) {
